@@ -84,6 +84,28 @@ QrLemma ==
             /\ I.CQT[j + 1][i + 1] = SumR(LAMBDA t : CR[j][t] * Q[i][t], 0, m - 1)
        /\ \A i \in 0 .. m - 1 : Q[i][I.qidx[i + 1]] # 0
 
+\* column pivoting is forced: at every free step t the pivot column strictly dominates (with
+\* margin) every later column in the norm of its rows t.., the fixed columns lead in ascending
+\* order, jpvt is a permutation and A*P0 = Q0*R0 with Q0 orthogonal
+PivotLemma ==
+  Fam = "qp3" =>
+    LET m == I.m
+        n == I.n
+        k == I.k
+        nf == I.nf
+        Q == Z0(I.Q, m, m)
+        R == Z0(I.RR, k, n)
+        A == Z0(I.A, m, n)
+        jp == I.jpvt
+    IN /\ {jp[j] : j \in 1 .. n} = 0 .. n - 1
+       /\ \A j \in 1 .. n : (j <= nf) = (I.jin[jp[j] + 1] = 0)
+       /\ \A j \in 1 .. nf - 1 : jp[j] < jp[j + 1]
+       /\ \A a, b \in 0 .. m - 1 : SumR(LAMBDA r : Q[r][a] * Q[r][b], 0, m - 1) = (IF a = b THEN 1 ELSE 0)
+       /\ \A t \in 0 .. k - 1 : (R[t][t] # 0 /\ \A c \in 0 .. t - 1 : R[t][c] = 0)
+       /\ \A i \in 0 .. m - 1, c \in 0 .. n - 1 : A[i][jp[c + 1]] = SumR(LAMBDA t : Q[i][t] * R[t][c], 0, k - 1)
+       /\ \A t \in nf .. k - 1 : \A c \in t + 1 .. n - 1 :
+              R[t][t] * R[t][t] >= 12 + SumR(LAMBDA i : R[i][c] * R[i][c], t, k - 1)
+
 \* n x n integer matrices
 MMul(X, Y, n) == Mat(n, n, LAMBDA i, j : SumR(LAMBDA t : X[i][t] * Y[t][j], 0, n - 1))
 Ident(n) == Mat(n, n, LAMBDA i, j : IF i = j THEN 1 ELSE 0)
